@@ -6,12 +6,16 @@ from .. import history
 from ..battery import call, _Raised
 from ..observe import observe
 
-TIERS = {"quick": 1000, "thorough": 20000}
+N_RANDOM = {"quick": 1000, "thorough": 20000}
+N_EXH = 2 ** 12 - 1  # every non-empty directed hypergraph on 3 fixed nodes (12 possible hyperedges), thorough tier only
+TIERS = {"quick": N_RANDOM["quick"], "thorough": N_RANDOM["thorough"] + N_EXH}
+EXHAUSTIVE = {"quick": False, "thorough": True}
 WATCHDOG_S = {"quick": 900, "thorough": 7200}
 RULE = ("one case = one generated DirectedHypergraph (2-8 nodes from any label universe, 1-14 hyperedges of total size 2-6 "
         "with disjoint non-empty sides, reversed and partially reversed pairs forced) x every bound 2..8 (also below the "
         "largest hyperedge) x every node x every order/size filter. non-trivial = >=2 hyperedges and at least one reversed "
-        "or partially reversed pair; distinct = by abstract state")
+        "or partially reversed pair; distinct = by abstract state. The thorough tier additionally enumerates EVERY non-empty "
+        "directed hypergraph on the 3 nodes {'a', 'b', 'E1'} (12 possible hyperedges, 4095 hypergraphs; exhaustive for that sub-space)")
 DECIDING = ["C12:degree", "C12:signature", "C12:reciprocity"]
 ASSUMPTIONS = ["reciprocities are defined on the hyperedges whose total size is within the bound (the anchor's and the code's reading)"]
 
@@ -51,6 +55,24 @@ def gen(rng):
 def run_case(ctx, rng, idx):
     from hypergraphx.measures import directed as dm
 
+    if idx >= N_RANDOM[ctx.tier]:
+        import itertools
+        import hypergraphx as hgx
+
+        mask = idx - N_RANDOM[ctx.tier] + 1
+        nodes = ["a", "b", "E1"]
+        poss = []
+        for r in range(1, 3):
+            for s_ in itertools.combinations(nodes, r):
+                rest = [x for x in nodes if x not in s_]
+                for q in range(1, len(rest) + 1):
+                    for t_ in itertools.combinations(rest, q):
+                        poss.append((s_, t_))
+        assert len(poss) == 12
+        h = hgx.DirectedHypergraph([e for i, e in enumerate(poss) if mask >> i & 1])
+        ctx.event("exhaustive-3-node-directed-hypergraph")
+        evaluate(ctx, rng, idx, h)
+        return
     h = gen(rng)
     evaluate(ctx, rng, idx, h)
     from ..mutate import same_count_edit
